@@ -53,7 +53,6 @@ package asn1
 //@   terminates
 
 //@ func (BitString).RightAlign
-//@   requires 0 <= b.BitLength
 //@   loop 1 invariant 1 <= i && i <= len(b.Bytes) && len(a) == len(b.Bytes) && fresh(a)
 //@   loop 1 decreases len(b.Bytes) - i
 //@   ensures  len(result) == len(b.Bytes)
